@@ -526,3 +526,69 @@ package tsm1
 //@   call append#6 requires significant_bits_fit: sigbits == 64 || (vDelta >> trailing) >> sigbits == 0
 //@   call append#6 requires nothing_cut_off_below: (vDelta >> trailing) << trailing == vDelta
 //@   call append#3 requires reused_window_loses_nothing: (vDelta >> prevTrailing) << prevTrailing == vDelta && (prevLeading == 0 || vDelta >> (64 - prevLeading) == 0)
+
+// ---- C10/C09: compaction copies a block through undecoded only if no tombstone applies to it ----
+// combine<T>(dedup=false) passes full blocks through as they are; tombstones (pending deletes of the block's file)
+// are applied only on the decode path. So whenever any block of the key carries tombstones, merge<T> must ask
+// for the decode path - for every block of the key, whichever file it came from.
+//@ func (*tsmBatchKeyIterator).mergeFloat
+//@   props C10 C09
+//@   nosafety
+//@   loop 1 invariant none_tombstoned_so_far: 1 <= i && (!dedup ==> all(j, 0, i, j < len(k.blocks) ==> len(k.blocks[j].tombstones) == 0))
+//@   call tsmBatchKeyIterator.combineFloat#1 requires tombstoned_blocks_take_the_decode_path: dedup || all(j, 0, len(k.blocks), len(k.blocks[j].tombstones) == 0)
+
+//@ func (*tsmBatchKeyIterator).mergeInteger
+//@   props C10 C09
+//@   nosafety
+//@   loop 1 invariant none_tombstoned_so_far: 1 <= i && (!dedup ==> all(j, 0, i, j < len(k.blocks) ==> len(k.blocks[j].tombstones) == 0))
+//@   call tsmBatchKeyIterator.combineInteger#1 requires tombstoned_blocks_take_the_decode_path: dedup || all(j, 0, len(k.blocks), len(k.blocks[j].tombstones) == 0)
+
+//@ func (*tsmBatchKeyIterator).mergeUnsigned
+//@   props C10 C09
+//@   nosafety
+//@   loop 1 invariant none_tombstoned_so_far: 1 <= i && (!dedup ==> all(j, 0, i, j < len(k.blocks) ==> len(k.blocks[j].tombstones) == 0))
+//@   call tsmBatchKeyIterator.combineUnsigned#1 requires tombstoned_blocks_take_the_decode_path: dedup || all(j, 0, len(k.blocks), len(k.blocks[j].tombstones) == 0)
+
+//@ func (*tsmBatchKeyIterator).mergeString
+//@   props C10 C09
+//@   nosafety
+//@   loop 1 invariant none_tombstoned_so_far: 1 <= i && (!dedup ==> all(j, 0, i, j < len(k.blocks) ==> len(k.blocks[j].tombstones) == 0))
+//@   call tsmBatchKeyIterator.combineString#1 requires tombstoned_blocks_take_the_decode_path: dedup || all(j, 0, len(k.blocks), len(k.blocks[j].tombstones) == 0)
+
+//@ func (*tsmBatchKeyIterator).mergeBoolean
+//@   props C10 C09
+//@   nosafety
+//@   loop 1 invariant none_tombstoned_so_far: 1 <= i && (!dedup ==> all(j, 0, i, j < len(k.blocks) ==> len(k.blocks[j].tombstones) == 0))
+//@   call tsmBatchKeyIterator.combineBoolean#1 requires tombstoned_blocks_take_the_decode_path: dedup || all(j, 0, len(k.blocks), len(k.blocks[j].tombstones) == 0)
+
+// the streaming (non-batch) iterator makes the same decision
+//@ func (*tsmKeyIterator).mergeFloat
+//@   props C10 C09
+//@   nosafety
+//@   loop 1 invariant none_tombstoned_so_far: 1 <= i && (!dedup ==> all(j, 0, i, j < len(k.blocks) ==> len(k.blocks[j].tombstones) == 0))
+//@   call tsmKeyIterator.combineFloat#1 requires tombstoned_blocks_take_the_decode_path: dedup || all(j, 0, len(k.blocks), len(k.blocks[j].tombstones) == 0)
+
+//@ func (*tsmKeyIterator).mergeInteger
+//@   props C10 C09
+//@   nosafety
+//@   loop 1 invariant none_tombstoned_so_far: 1 <= i && (!dedup ==> all(j, 0, i, j < len(k.blocks) ==> len(k.blocks[j].tombstones) == 0))
+//@   call tsmKeyIterator.combineInteger#1 requires tombstoned_blocks_take_the_decode_path: dedup || all(j, 0, len(k.blocks), len(k.blocks[j].tombstones) == 0)
+
+//@ func (*tsmKeyIterator).mergeUnsigned
+//@   props C10 C09
+//@   nosafety
+//@   loop 1 invariant none_tombstoned_so_far: 1 <= i && (!dedup ==> all(j, 0, i, j < len(k.blocks) ==> len(k.blocks[j].tombstones) == 0))
+//@   call tsmKeyIterator.combineUnsigned#1 requires tombstoned_blocks_take_the_decode_path: dedup || all(j, 0, len(k.blocks), len(k.blocks[j].tombstones) == 0)
+
+//@ func (*tsmKeyIterator).mergeString
+//@   props C10 C09
+//@   nosafety
+//@   loop 1 invariant none_tombstoned_so_far: 1 <= i && (!dedup ==> all(j, 0, i, j < len(k.blocks) ==> len(k.blocks[j].tombstones) == 0))
+//@   call tsmKeyIterator.combineString#1 requires tombstoned_blocks_take_the_decode_path: dedup || all(j, 0, len(k.blocks), len(k.blocks[j].tombstones) == 0)
+
+//@ func (*tsmKeyIterator).mergeBoolean
+//@   props C10 C09
+//@   nosafety
+//@   loop 1 invariant none_tombstoned_so_far: 1 <= i && (!dedup ==> all(j, 0, i, j < len(k.blocks) ==> len(k.blocks[j].tombstones) == 0))
+//@   call tsmKeyIterator.combineBoolean#1 requires tombstoned_blocks_take_the_decode_path: dedup || all(j, 0, len(k.blocks), len(k.blocks[j].tombstones) == 0)
+
